@@ -144,6 +144,13 @@ def _run_pos(case):
     # points
     hp_ = _holo(scat.build_detector(scat.grid_to_points(cfg["det"])), cfg, s, th)
     resid["points@" + t] = relmax(hp_.values, G.ravel())
+    # the dictionary call form of detector_points, one dictionary used for two detectors (another plane first)
+    pt = scat.grid_to_points(cfg["det"])
+    locs = {"x": np.asarray(pt["x"], dtype=float), "y": np.asarray(pt["y"], dtype=float)}
+    hp.detector_points(locs, z=float(pt["z"]) + 1.5)
+    d_same = hp.detector_points(locs, z=float(pt["z"])) if pt["z"] else hp.detector_points(locs)
+    flags["detector_points_leaves_its_dictionary_alone"] = bool(sorted(locs) == ["x", "y"])
+    resid["points_dictform@" + t] = relmax(_holo(d_same, cfg, s, th).values, G.ravel())
     # crop by isel
     if nx >= 2 and ny >= 2:
         a, b = sorted(rng.choice(nx + 1, 2, replace=False)); c, e = sorted(rng.choice(ny + 1, 2, replace=False))
